@@ -13,16 +13,20 @@ static const struct { uint16_t inh0, evt0, inh1, evt1; } TMR2[] = { { 3, 2, 2, 0
 /* cfgs 60..: selected configurations again with the two TPDOs being numbers 2 and 3 (1802h/1A02h, 1803h/1A03h; 1800h/1801h absent):
  * communication/mapping index arithmetic versus the runtime slot, start stagger event + number */
 static const int BASE2[] = { 4, 13, 22, 31, 40, 49, 54, 55, 57 };
+/* last two cfgs: TPDO0 starts as a synchronous TPDO (type 1 resp. 2) and can be re-typed to 254/255 and back by the legal procedure
+ * (invalidate, write type, validate) in any NMT state - what a synchronous activation leaves behind must not survive the re-typing */
+#define N_SYNC0 2
 #define N_BASE2 ((int)(sizeof BASE2 / sizeof BASE2[0]))
 static int TB;
 
-enum { E_TRIG0, E_TRIGOBJ, E_WR_CHG, E_WR_SAME, E_WR_P16, E_SYNC, E_TICK, E_START, E_PREOP, E_STOP, E_RESET, E_INVAL, E_REVAL, E_TYPE254, E_TYPE255, E_INH0, E_INH2, E_INH3, E_EVT0, E_EVT3, E_EVT4, E_REMAP1, E_REMAP3, E_WR_A16, E_N };
+enum { E_TRIG0, E_TRIGOBJ, E_WR_CHG, E_WR_SAME, E_WR_P16, E_SYNC, E_TICK, E_START, E_PREOP, E_STOP, E_RESET, E_INVAL, E_REVAL, E_TYPE254, E_TYPE255, E_INH0, E_INH2, E_INH3, E_EVT0, E_EVT3, E_EVT4, E_REMAP1, E_REMAP3, E_WR_A16, E_TYPE1, E_N };
 static const char *const EN[] = { "COTPdoTrigPdo(0)", "COTPdoTrigObj(async object)", "write async object (changed)", "write async object (same value)", "write second mapped object", "SYNC", "tick", "NMT start", "NMT pre-op", "NMT stop",
-    "NMT reset communication", "SDO 1800h:1 invalid", "SDO 1800h:1 valid", "SDO 1800h:2=254", "SDO 1800h:2=255", "SDO 1800h:3=0", "SDO 1800h:3=2 ticks", "SDO 1800h:3=3 ticks", "SDO 1800h:5=0", "SDO 1800h:5=3 ticks", "SDO 1800h:5=4 ticks", "re-map TPDO0 to 1 object", "re-map TPDO0 to 3 objects", "write async object of TPDO1 (changed)" };
+    "NMT reset communication", "SDO 1800h:1 invalid", "SDO 1800h:1 valid", "SDO 1800h:2=254", "SDO 1800h:2=255", "SDO 1800h:3=0", "SDO 1800h:3=2 ticks", "SDO 1800h:3=3 ticks", "SDO 1800h:5=0", "SDO 1800h:5=3 ticks", "SDO 1800h:5=4 ticks", "re-map TPDO0 to 1 object", "re-map TPDO0 to 3 objects", "write async object of TPDO1 (changed)", "SDO 1800h:2=1" };
 
 static const char *cfg_name(int c)
 {
     static char b[100]; static const int SN[] = { 1, 2, 3, 240 };
+    if (c >= 54 + N_TMR2 + N_BASE2) { snprintf(b, sizeof b, "TPDO0 sync type %d; TPDO1 %s; started OPERATIONAL", c - (54 + N_TMR2 + N_BASE2) + 1, c - (54 + N_TMR2 + N_BASE2) ? "event-driven" : "sync type 2"); return b; }
     if (c >= 54 + N_TMR2) { static char b2[128]; char t[100]; snprintf(t, sizeof t, "%s", cfg_name(BASE2[c - 54 - N_TMR2])); snprintf(b2, sizeof b2, "TPDO numbers 2,3: %s", t); return b2; }
     if (c >= 54) snprintf(b, sizeof b, "TPDO0 inhibit %d event %d; TPDO1 inhibit %d event %d; both event-driven; OPERATIONAL", TMR2[c - 54].inh0, TMR2[c - 54].evt0, TMR2[c - 54].inh1, TMR2[c - 54].evt1);
     else if (c >= 36) snprintf(b, sizeof b, "TPDO0 type %d inhibit %d event %d; TPDO1 event-driven; OPERATIONAL", 254 + (c / 9) % 2, (int[]){ 0, 2, 3 }[(c / 3) % 3], (int[]){ 0, 3, 4 }[c % 3]);
@@ -33,8 +37,10 @@ static const char *cfg_name(int c)
 static int build(int cfg)
 {
     static const int SN[] = { 1, 2, 3, 240 }; static const uint16_t INH[] = { 0, 2, 3 }, EVT[] = { 0, 3, 4 };
+    int sync0 = 0;
     TB = 0;
-    if (cfg >= 54 + N_TMR2) { TB = 2; cfg = BASE2[cfg - 54 - N_TMR2]; }
+    if (cfg >= 54 + N_TMR2 + N_BASE2) { sync0 = cfg - (54 + N_TMR2 + N_BASE2) + 1; cfg = sync0 == 1 ? 19 : 36; }   /* 19: TPDO1 sync type 2 (SN[19 % 4 = 3]?) see below; 36: two event TPDOs */
+    else if (cfg >= 54 + N_TMR2) { TB = 2; cfg = BASE2[cfg - 54 - N_TMR2]; }
     int c = cfg % 18;
     nc_defaults();
     NC.sync = 1; NC.sync_id = 0x80; NC.sync_cycle = 0;
@@ -44,6 +50,7 @@ static int build(int cfg)
     SYNC_N = SN[c % 4]; TWO_EVENT = cfg >= 36;
     NC.tpdo[TB + 1].present = 1; NC.tpdo[TB + 1].cobid = 0x40000281u; NC.tpdo[TB + 1].type = (uint8_t)(TWO_EVENT ? 254 : SYNC_N); NC.tpdo[TB + 1].nmap = 1; NC.tpdo[TB + 1].map[0] = TWO_EVENT ? NC_MAP(0x2101, 0, 16) : NC_MAP(0x2110, 0, 8);
     NC.operational = cfg >= 18;
+    if (sync0) { NC.tpdo[TB].type = (uint8_t)sync0; NC.tpdo[TB].inhibit = 0; NC.tpdo[TB].event = 0; if (sync0 == 1) { SYNC_N = 2; NC.tpdo[TB + 1].type = 2; } }
     if (cfg >= 54) {
         NC.tpdo[TB].type = 254; NC.tpdo[TB].inhibit = (uint16_t)(TMR2[cfg - 54].inh0 * 10); NC.tpdo[TB].event = TMR2[cfg - 54].evt0;
         NC.tpdo[TB + 1].inhibit = (uint16_t)(TMR2[cfg - 54].inh1 * 10); NC.tpdo[TB + 1].event = TMR2[cfg - 54].evt1;
@@ -53,6 +60,7 @@ static int build(int cfg)
     memset(&M, 0, sizeof M);
     M.t[0].valid = 1; M.t[0].type = NC.tpdo[TB].type; M.t[0].inh_cfg = INH[(c / 3) % 3]; M.t[0].evt_cfg = EVT[c % 3];
     M.t[1].valid = 1; M.t[1].type = (uint8_t)(TWO_EVENT ? 254 : SYNC_N); M.map0 = 2;
+    if (sync0) { M.t[0].type = (uint8_t)sync0; M.t[0].inh_cfg = 0; M.t[0].evt_cfg = 0; if (sync0 == 1) M.t[1].type = 2; }
     if (cfg >= 54) { M.t[0].type = 254; M.t[0].inh_cfg = TMR2[cfg - 54].inh0; M.t[0].evt_cfg = TMR2[cfg - 54].evt0; M.t[1].inh_cfg = TMR2[cfg - 54].inh1; M.t[1].evt_cfg = TMR2[cfg - 54].evt1; }
     if (NC.operational) { M.op = 1; for (int i = 0; i < 2; i++) { MT *t = &M.t[i]; t->active = 1; t->inh = t->inh_cfg; t->evt = t->type >= 254 ? t->evt_cfg : 0; t->ev_rem = (uint16_t)(t->evt ? t->evt + TB + i : 0); } }
     W_REG(M);
@@ -131,9 +139,13 @@ static int step(int e)
         /* SDO parameter writes: not possible in STOPPED; detect by asking the node */
         if (CONmtGetMode(&Node.Nmt) == CO_STOP) return MC_SKIP;
         MT *t = &M.t[0];
+        /* how an inhibit time interacts with SYNC-driven transmission is not fixed by the statement: the two never meet here */
+        if ((e == E_INH2 || e == E_INH3) && t->type <= 240) return MC_SKIP;
+        if (e == E_TYPE1 && t->inh_cfg) return MC_SKIP;
         if (e == E_INVAL) { r = nc_sdo_write((uint16_t)(0x1800 + TB), 1, 0xC0000181u, 4); if (r == 0) { t->valid = 0; deactivate(0); } }
         else if (e == E_REVAL) { int was = t->valid; r = nc_sdo_write((uint16_t)(0x1800 + TB), 1, 0x40000181u, 4); if (r == 0 && !was) { t->valid = 1; activate(0); } }
         else if (e == E_TYPE254 || e == E_TYPE255) { r = nc_sdo_write((uint16_t)(0x1800 + TB), 2, e == E_TYPE254 ? 254 : 255, 1); if (r == 0) t->type = (uint8_t)(e == E_TYPE254 ? 254 : 255); }
+        else if (e == E_TYPE1) { r = nc_sdo_write((uint16_t)(0x1800 + TB), 2, 1, 1); if (r == 0) t->type = 1; }
         else if (e >= E_INH0 && e <= E_INH3) { uint16_t v = (uint16_t)(e == E_INH0 ? 0 : e == E_INH2 ? 2 : 3); r = nc_sdo_write((uint16_t)(0x1800 + TB), 3, v * 10u, 2); if (r == 0) t->inh_cfg = v; }
         else { uint16_t v = (uint16_t)(e == E_EVT0 ? 0 : e == E_EVT3 ? 3 : 4);
             r = nc_sdo_write((uint16_t)(0x1800 + TB), 5, v, 2);
@@ -175,5 +187,5 @@ static int step(int e)
     return MC_OK;
 }
 
-static const mc_harness H = { "C12", "c12", 54 + N_TMR2 + N_BASE2, cfg_name, build, ev_name, step, 8, 7 };
+static const mc_harness H = { "C12", "c12", 54 + N_TMR2 + N_BASE2 + N_SYNC0, cfg_name, build, ev_name, step, 8, 7 };
 int main(int argc, char **argv) { return mc_main(argc, argv, &H); }
